@@ -210,7 +210,8 @@ Qed.
    loses are given by [gc]: for a class TWO OR MORE levels below an alternatively mapped class from_dao asks only the
    immediate base DAO (self.__class__.__bases__[0]) for an alternative parent, so constructor arguments that only the
    alternative parent provides (columns the mapping renamed) are not passed and come back as the class's defaults:
-   gc = [(class, [(position, default value)])]  (finding C04-d). *)
+   gc = [(class, [(position, default value)])]  (finding C04-d; FIXED by repo commit 96f6440: from_dao scans the MRO now, the
+   harness passes gc = [], the table only serves the regression example). *)
 Fixpoint set_nth (n : nat) (v : Z) (l : list Z) : list Z :=
   match l, n with
   | [], _ => []
@@ -289,7 +290,7 @@ Example altcycle_other_root_ok :
   model_canon altcycle_alts [] [] altcycle_heap 1 = spec_canon altcycle_heap 1.
 Proof. split; vm_compute; reflexivity. Qed.
 
-(* C04-d: class 13 derives from 12, which derives from the alternatively mapped class 10; the mapping renames column 0.
+(* C04-d (FIXED by 96f6440; regression example about the previous code): class 13 derives from 12, which derives from the alternatively mapped class 10; the mapping renames column 0.
    from_dao of a 13-object asks only its immediate base DAO (12, not alternatively mapped) for an alternative parent: the
    constructor argument behind column 0 is not passed and comes back as the default (0). *)
 Definition altgc_heap : lheap := [(0, mkObj 13 [7; 3]%Z [])].
